@@ -90,6 +90,18 @@ def load_known_findings():
     return json.load(f).get('entries', [])
 
 
+_BASELINE = None
+
+
+def baseline_labels(pid):
+  """labels discharged on the unchanged tree, recorded by tools/update_baseline.py"""
+  global _BASELINE
+  if _BASELINE is None:
+    p = os.path.join(VERIF, 'baseline', 'obligations.json')
+    _BASELINE = json.load(open(p)) if os.path.exists(p) else {}
+  return set(_BASELINE.get(pid, []))
+
+
 def active_findings(pid):
   return [e for e in load_known_findings() if e.get('property') == pid and e.get('status') == 'finding']
 
@@ -244,7 +256,31 @@ def run_property(prop, tier='quick', seed=0, only_unit=None, verbose=False):
                   f, indent=1, default=str)
       violations.append((label, path, ''))
     else:
-      status['undecided'].append("%s: %s (%d instance(s); native search found no failing input)" % (label, why, len(obs)))
+      # second opinion without the quantified hypotheses (see solve.relaxed_check)
+      verdicts = [solve.relaxed_check(o) for o in obs[:40]]
+      if len(obs) <= 40 and all(v[0] == 'unsat' for v in verdicts):
+        discharged += len(obs)
+        by_label[label]['discharged'] += len(obs)
+        per_backend['z3']['count'] += len(obs)
+        continue
+      sat = [(o, v) for o, v in zip(obs, verdicts) if v[0] == 'sat']
+      if sat and label in baseline_labels(prop.pid):
+        # the obligation was discharged on the unchanged tree (baseline/obligations.json) and is
+        # now open, with a model of the ground part of its path condition: reported as a
+        # violation without a failing input
+        o, v = sat[0]
+        path = os.path.join(replay_dir, _safe(label) + '.json')
+        with open(path, 'w') as f:
+          json.dump({'property': prop.pid, 'obligation': label, 'unit': o.unit, 'kind': o.kind,
+                     'path': list(o.path), 'trail': o.meta.get('trail'),
+                     'solver_verdict': 'unknown on the full VC (' + why + '); sat without the quantified hypotheses',
+                     'relaxed': v[1], 'goal': str(o.goal)[:2000], 'native_confirms': None,
+                     'note': 'this obligation is discharged on the unchanged tree (baseline/obligations.json); no concrete failing input was produced'},
+                    f, indent=1, default=str)
+        violations.append((label, path, ' no-failing-input-found'))
+      else:
+        status['undecided'].append("%s: %s (%d instance(s); native search found no failing input; relaxed: %s)" % (
+          label, why, len(obs), sorted(set(v[0] for v in verdicts))))
 
   # refutations -> replay
   for label, obs in sorted(refuted_labels.items()):
